@@ -807,6 +807,8 @@ class BuilderWorld(World):
     def begin(self, ex):
         super().begin(ex)
         self.names = [z3.String(f"rule{i}.name") for i in range(self.k)]
+        if ex is not None and self.k > 1:
+            ex.assume(z3.Distinct(*self.names))          # invariant of a builder state: accepted rule names are pairwise distinct
         self.rules_vec.items = [self.mk_rule(i, self.names[i]) for i in range(self.k)]
         self.builder = Agg("Builder", None, {0: self.rules_vec, 1: self.ruleset_cell.v.fields[1], 2: self.ruleset_cell.v.fields[2]})
 
@@ -963,3 +965,58 @@ def builder_obligations(run, prog, tier, only=None):
         d = check_paths(run, prog, world, oid, body, cases, "builder-step", meta={"shape": shape})
         out.append((d, {"op": "symbols", "shape": shape}))
     return out
+
+
+def finish_family(run, helper, res, build, mandatory=True):
+    """Native replay + bookkeeping for a list of (obligation, info) produced by one of the families above."""
+    from . import e3replay
+    for d, info in res:
+        if d["verdict"] == "fail":
+            e3replay.confirm(run, helper, d["id"], d, lambda cex, info=info: build(info, cex))
+        else:
+            for c in d.get("cex", []):
+                c.pop("_model", None)
+                c.pop("_case", None)
+        if d["verdict"] == "inconclusive":
+            run.inconc(d["id"], d.get("reason", "no verdict"), mandatory=mandatory)
+
+
+def note_mir(run, prog):
+    run.functions_encoded.update(sorted(prog.executed))
+    m = run.extra.setdefault("mir", {})
+    m["functions_executed_from_mir"] = sorted(prog.executed)
+    m["std_contract_models"] = sorted(prog.stats.get("std_models", []))
+    m["solver_queries"] = prog.stats["queries"]
+    m["paths"] = prog.stats["paths"]
+
+
+def keywords_of(run):
+    import re as _re
+    src = run.read("src/expr/keywords.rs")
+    m = _re.search(r"KEYWORDS[^=]*=\s*[&\[]+(.*?)\];", src, _re.S)
+    return set(_re.findall(r'"([^"]+)"', m.group(1))) if m else set()
+
+
+def run_parts(run, parts, only=None, pendings=1, kinds=None, mandatory=True):
+    """Shared driver: dump the MIR of the snapshot, run the requested obligation families, replay counterexamples natively."""
+    from .mir.harness import dump_mir
+    from . import e3replay
+    from .synx import Helper
+    prog = dump_mir(run)
+    helper = Helper(run)
+    if "dispatcher" in parts:
+        decide_dispatcher(run, prog, helper, kinds=kinds, only=only, mandatory=mandatory, pendings=pendings)
+    if "ruleset" in parts:
+        ks = (0, 1, 2, 3) if run.tier == "quick" else (0, 1, 2, 3, 4)
+        res = ruleset_obligations(run, prog, ks, pendings=pendings, only=only)
+        finish_family(run, helper, res, lambda info, cex: ruleset_scenario(info["k"], cex), mandatory)
+    if "two_calls" in parts and (not only or only in "cache_two_calls"):
+        d = two_calls_obligation(run, prog, pendings=pendings)
+        finish_family(run, helper, [(d, {})], lambda info, cex: e3replay.two_calls_build(cex), mandatory)
+    if "builder" in parts:
+        kw = keywords_of(run)
+        res = builder_obligations(run, prog, run.tier, only=only)
+        finish_family(run, helper, res, lambda info, cex: e3replay.builder_build(info, cex, kw), mandatory)
+    note_mir(run, prog)
+    run.assumptions += E3_ASSUMPTIONS
+    return prog
